@@ -238,7 +238,7 @@ class C33(core.Check):
     PROPS = 'props/C33.v'
     MODEL_IMPORTS = ['gen.Gen_draw', 'model.Draw']
     QUICK_CASES = 500
-    THOROUGH_CASES = 7000
+    THOROUGH_CASES = 5000
     TRUSTED = ['hand model model/Draw.v of Graphics.draw_/_draw/_draw_step and of the MLParser/CodeStream reader '
                '(its direction table, scale*d quot 4 step, rotation tests, range limits, error numbers and '
                'character classes are regenerated by gen_draw on every run), tied by correspondence on real '
